@@ -18,7 +18,7 @@ def run(cmd, cwd, env=None, timeout=3600):
     e.update(env or {})
     t0 = time.time()
     p = subprocess.run(cmd, cwd=cwd, env=e, capture_output=True, text=True, timeout=timeout)
-    return p.returncode, (p.stdout + p.stderr)[-3000:], round(time.time() - t0, 1)
+    return p.returncode, (p.stderr[-1500:] + "\n" + p.stdout[-6000:]), round(time.time() - t0, 1)
 
 
 def main():
